@@ -34,6 +34,15 @@
 (*   "HTML"          "<html" / "<!doctype" in any letter case              *)
 (*   "BIN"           a control byte other than TAB, CR, LF                 *)
 (*   "XL"            rule text longer than any line buffer (> 64 KiB)      *)
+(*   "L4095" "L4096" "L4097" "L5K" "L40K" "L65535" "L65536"                *)
+(*                   rule text of exactly that many bytes (5K, 40K: about) *)
+(*                   - LINE LENGTH as a dimension of the content: around   *)
+(*                   4 KiB (a page, a typical write buffer), several       *)
+(*                   buffers, and the two sides of the 64 KiB line limit:  *)
+(*                   a line of 65535 bytes and its LF still fit a 64 KiB   *)
+(*                   line buffer, anything more on that line does not, and *)
+(*                   65536 bytes never do.  conc() puts at most one of     *)
+(*                   these on a physical line.                             *)
 (*   anything else   ("R1", "R2", "RL", ...) printable rule text           *)
 (***************************************************************************)
 EXTENDS Sequences, Naturals, FiniteSets
@@ -115,9 +124,14 @@ Parse(t, pol) == CHOOSE p \in {Run(ls, 1, <<>>, FALSE, pol) : ls \in {Lines(t)}}
 \*  - an HTML-looking line after real rules (an HTML page? a rule?),
 \*  - a line longer than a line buffer
 \* may be rejected, or treated as the reference parse treats them.
+\* A physical line (without its LF) that does not fit a 64 KiB line buffer.
+TooLong(line) ==
+    \/ Has(line, {"XL", "L65536"})
+    \/ Has(line, {"L65535"}) /\ Len(line) > 1
+
 Soft(t) ==
     \E ls \in {Lines(t)} : \E i \in DOMAIN ls : \E tl \in {Trim(ls[i])} :
-        \/ Has(ls[i], {"XL"})
+        \/ TooLong(ls[i])
         \/ tl # <<>> /\ Head(tl) \in Comment \cup {"COSM"} /\ Has(tl, {"BIN", "VT"})
         \/ tl # <<>> /\ Head(tl) = "HTML"
 
